@@ -2,7 +2,8 @@
    Stage 1: the spacing table never glues two tokens into a different token (reflection over all
    generated token types), with the exact list of exceptions; the remaining steps (comment breaks
    under plan_ok, locality of each sub-lexer) are monitored by the re-scan oracle. *)
-From PasfmtVerif Require Import Model.Spacing Proofs.SpacingProofs.
+From PasfmtVerif Require Import Model.Spacing Proofs.SpacingProofs Model.Generics Proofs.GenericsProofs
+  Model.Requirements Proofs.RequirementsProofs.
 
 (* TokenSpacing changes nothing but the space counters *)
 Theorem C02_spacing_only_counters : forall l, Forall2 same_but_sp (token_spacing l) l.
@@ -22,3 +23,33 @@ Theorem C02_spacing_separates :
   forall tl tr pr o, is_sl_comment tl = false -> is_eof tl = false -> gap_fn tl tr pr o = 0 ->
   glue_safe tl tr = true \/ (o = 0 /\ reads_orig tl tr pr = true) \/ In (tl, tr) spacing_glue_exceptions.
 Proof. exact spacing_separates. Qed.
+
+(* the generics pass re-types nothing but `<` / `>` (to their Generic kind), never fails, and is a
+   fixpoint of itself *)
+Theorem C02_generics_only_chevrons :
+  forall l i a b, nth_error l i = Some a -> nth_error (generics_consolidate l) i = Some b -> a <> b ->
+  (exists k, a = TT_Op (OK_LessThan k) /\ b = TT_Op (OK_LessThan ChK_Generic)) \/
+  (exists k, a = TT_Op (OK_GreaterThan k) /\ b = TT_Op (OK_GreaterThan ChK_Generic)).
+Proof. exact generics_only_chevrons. Qed.
+
+Theorem C02_generics_total : forall l, exists r, generics_run l = G_Ok r.
+Proof. exact generics_total. Qed.
+
+(* the wrapper's hard invariant, characterised exactly by reflection over all generated types *)
+Theorem C02_invariant_characterised :
+  forall prev cur cd, formatting_invariant prev cur cd = invariant_spec prev cur cd.
+Proof. exact formatting_invariant_char. Qed.
+
+(* whatever follows a `//` comment, a multi-line block comment or an unterminated literal must
+   break (unless it is itself typed as a trailing comment): code is never absorbed into a comment *)
+Theorem C02_break_after_line_ender :
+  forall p cur cd, ends_its_line p = true -> trails_its_line cur = false ->
+  formatting_invariant (Some p) cur cd = Some DR_MustBreak.
+Proof. exact break_after_line_ender. Qed.
+
+(* in any layout accepted by the (extracted, monitored) checker, a break follows every `//` comment *)
+Theorem C02_accepted_layout_breaks_after_line_comment :
+  forall cd l i p bp ty brk, plan_respects_invariants cd l = true ->
+  nth_error l i = Some (p, bp) -> nth_error l (S i) = Some (ty, brk) ->
+  is_sl_comment p = true -> trails_its_line (Some ty) = false -> brk = true.
+Proof. exact plan_break_after_line_comment. Qed.
